@@ -17,6 +17,9 @@
    The engine reads qualities of earlier store points from the durable store and treats "not found" as 0
    (bft.getQuality).  That is modelled as it is: a crash between the block bulk and the quality write of a store
    point leaves a hole that re-delivery cannot fill (the block is already known) - finding F2, flag f2.
+   Repair = TRUE is the code after the fix of F2 (bft.NewEngine -> recoverInterruptedCommit): at start-up every branch
+   head that is a store point without a persisted quality is committed (quality saved, finality advanced) as
+   CommitBlock would have done; Repair = FALSE is the code before it and must still violate ResumeConvergesAlsoF2.
 
    A block IS its path from genesis (BFTOps).  Score and the id order are parameters: block height / LessPath in
    the model-checking configs, logged facts in the trace specification.                                          *)
@@ -24,6 +27,7 @@ EXTENDS BFTOps
 
 CONSTANTS Stream,        \* sequence of blocks, parents before children; re-delivered from the start after a restart
           MaxCrashes,
+          Repair,        \* TRUE: start-up completes an interrupted bft commit (fix of F2)
           Score(_),      \* total score of a block
           IdLess(_, _)   \* byte order of block ids
 
@@ -151,9 +155,25 @@ Crash == /\ up /\ crashes < MaxCrashes
          /\ lastCrashAt' = IF i > lastCrashAt THEN i ELSE lastCrashAt
          /\ UNCHANGED <<durable, i, mFin>>
 \* restart: best from the pointer, finalized from its key, log db re-synchronised with the best chain, stream resumed
+\* bft.recoverInterruptedCommit: the branch heads (at or above finalized) that are store points without a quality
+HeadsOf(S) == {h \in S : ~\E x \in S : x # h /\ IsAnc(h, x)}
+Uncommitted == {h \in HeadsOf(dBlk) : IsSP(h) /\ h \notin DOMAIN dQ /\ Len(h) >= Len(dFin)}
+\* CommitBlock(h) on the durable state (f = the finalized checkpoint read at start-up)
+RECURSIVE Recover(_, _, _)
+Recover(Q, f, todo) ==
+  IF todo = {} THEN <<Q, f>>
+  ELSE LET h == CHOOSE x \in todo : \A y \in todo : ~IdLess(x, y)            \* ScanHeads: descending id order
+           pq == IF CP(Len(h)) = 0 THEN 0 ELSE GetQIn(Q, AncAt(h, CP(Len(h)) - 1))
+           q == pq + (IF Justified(h) THEN 1 ELSE 0)
+           Q2 == (h :> q) @@ Q
+           c == IF Committed(h) /\ q > 1 /\ CP(Len(h)) > Len(f) THEN ImplFindCPIn(Q2, q - 1, f, h) ELSE NoBlock
+       IN Recover(Q2, IF c = NoBlock THEN f ELSE c, todo \ {h})
 Restart == /\ ~up
-           /\ up' = TRUE /\ mFin' = dFin /\ i' = 1 /\ dLogs' = dBest
-           /\ UNCHANGED <<dState, dIdx, dBlk, dBest, dQ, dFin, pc, isBest, hist>>
+           /\ up' = TRUE /\ i' = 1 /\ dLogs' = dBest
+           /\ IF Repair /\ Uncommitted # {}
+              THEN LET r == Recover(dQ, dFin, Uncommitted) IN dQ' = r[1] /\ dFin' = r[2] /\ mFin' = r[2]
+              ELSE mFin' = dFin /\ UNCHANGED <<dQ, dFin>>
+           /\ UNCHANGED <<dState, dIdx, dBlk, dBest, pc, isBest, hist>>
 
 Next == Skip \/ Begin \/ WState \/ WLogs \/ WIdx \/ WBlk \/ WQ \/ WFin \/ Crash \/ Restart
 Spec == Init /\ [][Next]_vars
@@ -178,8 +198,9 @@ Converged == /\ dBest = Ref.best
              /\ QualitiesRight
              /\ IsAnc(dFin, Ref.fin)
              /\ (LaterCommit \/ crashes = 0 => dFin = Ref.fin)
-\* resuming the stream leads to the same best block, tallies and (after one further epoch) finality - except F2
-ResumeConverges == (Finished /\ ~f2) => Converged
+\* resuming the stream leads to the same best block, tallies and (after one further epoch) finality - before the
+\* repair of F2 except after a crash at a quality write
+ResumeConverges == (Finished /\ (Repair \/ ~f2)) => Converged
 \* the same without the exception: expected to be VIOLATED (documents F2 in the specification)
 ResumeConvergesAlsoF2 == Finished => Converged
 \* vacuity probes (expected to be violated)
